@@ -267,6 +267,60 @@ def run(ctx: Ctx) -> None:
                        "completed sub-functions without committed paths, and the next evaluation of such a sub-function must commit its path")
     commit_rules(ctx, top, "C10.R7")
 
+    # ---- R8: the cleanup cannot fail before it drops the context -----------------------------------------------------------
+    rep.rule("C10.R8", "every key that the cleanup of the evaluation reads from a table of the context, before the context is dropped, was put there when the context "
+                       "was created: the table is initialised over the same enumeration the cleanup iterates (a missing key raises KeyError in the `finally`: it "
+                       "replaces the user's exception and the context is never released)")
+    n8 = 0
+    tcfg = cfg_of(top)
+    for tr in [x for x in top.own_nodes() if isinstance(x, ast.Try) and x.finalbody]:
+        resets = [st for st in ast.walk(ast.Module(body=tr.finalbody, type_ignores=[])) if isinstance(st, ast.Assign) and isinstance(st.value, ast.Constant) and st.value.value is None]
+        if not resets:
+            continue
+        reads = []  # (table attribute, iterable expression)
+        for x in ast.walk(ast.Module(body=tr.finalbody, type_ignores=[])):
+            gens = []
+            if isinstance(x, (ast.ListComp, ast.GeneratorExp, ast.SetComp, ast.DictComp)):
+                gens = [(g.target, g.iter, x) for g in x.generators]
+            elif isinstance(x, ast.For):
+                gens = [(x.target, x.iter, x)]
+            for tg, it, scope_ in gens:
+                if not isinstance(tg, ast.Name):
+                    continue
+                for sub in ast.walk(scope_):
+                    if isinstance(sub, ast.Subscript) and isinstance(sub.ctx, ast.Load) and isinstance(sub.slice, ast.Name) and sub.slice.id == tg.id and isinstance(sub.value, ast.Attribute):
+                        if getattr(sub, "lineno", 0) <= resets[0].lineno:
+                            reads.append((sub.value.attr, it, sub))
+        for attr, it, sub in reads:
+            n8 += 1
+            inits = []
+            for c in top.own_nodes():
+                if isinstance(c, ast.Call):
+                    for k in c.keywords:
+                        if k.arg == attr:
+                            for y in ast.walk(k.value):
+                                if isinstance(y, (ast.ListComp, ast.GeneratorExp, ast.DictComp, ast.SetComp)):
+                                    inits.append((c, y.generators[0].iter))
+            desc = f"`{unparse(sub, 40)}` in the cleanup reads keys that the creation of the context put into `{attr}`"
+            if not inits:
+                rep.unknown("C10.R8", top.qname, f"initialisation of the table `{attr}` not found", top.loc(sub))
+            elif all(unparse(i_) == unparse(it) for _c, i_ in inits):
+                rep.ok("C10.R8", top.qname, desc + f" (both over `{unparse(it, 40)}`)", top.loc(sub))
+            else:
+                c0, i0 = [(c_, i_) for c_, i_ in inits if unparse(i_) != unparse(it)][0]
+                rep.bad("C10.R8", top.qname, desc, top.loc(sub), [f"{top.loc(c0)}: the table is created over `{unparse(i0, 50)}`", f"{top.loc(sub)}: the cleanup reads it over `{unparse(it, 50)}`",
+                        "with an evaluation restricted to some stages a user function that raises is followed by KeyError in the `finally`: the KeyError replaces the user's exception "
+                        "(even KeyboardInterrupt) and the evaluation context is never released: every later dds.keep / dds.eval of the process fails"], f"cleanup-keys:{attr}",
+                        what="the cleanup of the evaluation reads keys that were never initialised: it fails before releasing the context")
+    rep.floor("C10.R8", n8, 0)
+
+    # ---- R9: what a failed evaluation leaves is not taken for a committed path ---------------------------------------------
+    from . import storerules as _S
+    rep.rule("C10.R9", "as C06.R9: a path whose function failed resolves to nothing: fetch_paths of the local store follows the link when it tests the entry (a link left "
+                       "without its blob is not a committed path, dds.load refuses it instead of returning None)")
+    n9 = _S.path_entry_presence(ctx, _S.LocalView(ctx), "C10.R9")
+    rep.floor("C10.R9", n9, 1)
+
     # ---- R6: markers set on the way to the user's function are released on every exit -------------------------------------
     rep.rule("C10.R6", "a marker put into non-local state (closure / module container) before a call that leads to the user's function, and taken out "
                        "after it, is taken out on the exceptional exit too (try / finally)")
